@@ -54,7 +54,11 @@ def cached_template(
     template_cls = template_cls or Template
     template_cls_path = get_import_path(template_cls)
     engine_cls_path = get_import_path(engine.__class__) if engine else None
-    cache_key = (template_cls_path, template_string, engine_cls_path)
+    # NOTE: `name` and `origin` are part of the key, because the relative paths in `{% include "./x.html" %}`
+    #       and `{% extends "./x.html" %}` are resolved against them when the template is compiled. So two templates
+    #       with the same source but different names (e.g. template files of two components) are different templates.
+    origin_name = origin.name if origin is not None else None
+    cache_key = (template_cls_path, template_string, engine_cls_path, name, origin_name)
 
     maybe_cached_template: Optional[Template] = template_cache.get(cache_key)
     if maybe_cached_template is None:
